@@ -228,3 +228,12 @@ func (c *Ctx) producibleColumnTypes(rule string) map[string]string {
 	}
 	return out
 }
+
+func sortedConstKeys(m map[string]*types.Const) []string {
+	var out []string
+	for k := range m {
+		out = append(out, k)
+	}
+	sort.Strings(out)
+	return out
+}
